@@ -7,9 +7,10 @@ anchored mechanism, each a statement about the shape of the code that holds for 
              sign table is odd under it (mirror image <=> all signs flip, the input of the (-i,-j) duality);
   E7  T7     braid closure pushes, for sigma_i^{+-1}, the counter-clockwise code starting at the incoming under end
              with the sign the generator names (sigma sigma^-1 is a Reidemeister II pair only then);
+  E9  R8     a circle is based iff it contains the base edge - the same predicate for the complex and the cycles;
   E8  F2     the global shift is (-n_neg, n_pos - 2 n_neg) - Reidemeister I invariance fixes exactly this formula.
 """
-import e7_tables, e8_formulas, e22_choose
+import e7_tables, e8_formulas, e22_choose, e9_relations
 
 LEVEL = 'other'
 EXPLANATION = ('Static analysis (MIR path summaries, literal tables folded over their finite domains, affine form extraction) of the four '
@@ -32,4 +33,6 @@ def run(ctx, rep):
     e22_choose.run(facts, rep)
     e7_tables.run(facts, rep)
     e8_formulas.check_shift(facts, rep)
+    rep.rule('E9.R8', 'one based-circle predicate (contains) for the complex and the tracked cycles: the reduced theory does not depend on the edge numbering')
+    e9_relations.check_based_predicate(facts, rep)
     rep.callsites += sum(len(facts.bodies[k].calls()) for k in rep.functions if k in facts.bodies)
